@@ -165,6 +165,63 @@ void reg_conv_a() {  // converters without inverse of F1 in the result (polynomi
   conv<TO::C_TRUESDELL, TO::DTAU_DF, N>("C_TRUESDELL_from_DTAU_DF", 0, HF1);
 }
 
+// ---- the four converters from DT_DELOG (dT/dE_log, logarithmic-strain framework).  They are thin wrappers around
+// LogarithmicStrainHandler (eigen decomposition by Jacobi iterations: not traceable; the handler itself is property C24).
+// Double only (tier 8 of tt.hxx): the REAL converters are executed and the chain-rule relations between their results are
+// checked, the reference being DS_DEGL <- DT_DELOG (Lagrangian handler):
+//   DS_DC = DS_DEGL / 2,  SPATIAL_MODULI (Eulerian handler) = push-forward of DS_DEGL by F1 (converter proved = pf4),
+//   C_TRUESDELL = SPATIAL_MODULI / J (converter proved).  Every operation returns a difference that must vanish.
+template <unsigned short N>
+void reg_dtdelog() {
+  auto dreg = [](const std::string& name, auto f) {
+    reg(name, N, "Atts", 'A', [f](const auto& in) {
+      using T = TSC;
+      if constexpr (std::is_same_v<T, double>) {
+        const auto K = mk_A<N>(in[0]);
+        const auto F0 = mk_t<N>(in[1]);
+        const auto F1 = mk_t<N>(in[2]);
+        const auto s = mk_s<N>(in[3]);
+        st2tost2<N, T> r = f(K, F0, F1, s);
+        return fl(r);
+      } else {
+        return V<T>{};
+      }
+    }, 8, HF1, false);
+  };
+  using tfel::material::convert;
+  dreg("DTDELOG_DS_DC_minus_half_DS_DEGL", [](const auto& K, const auto& F0, const auto& F1, const auto& s) {
+    const st2tost2<N, double> a = convert<TO::DS_DC, TO::DT_DELOG>(K, F0, F1, s);
+    const st2tost2<N, double> b = convert<TO::DS_DEGL, TO::DT_DELOG>(K, F0, F1, s);
+    return st2tost2<N, double>(2 * a - b);
+  });
+  dreg("DTDELOG_SPATIAL_minus_pushforward_DS_DEGL", [](const auto& K, const auto& F0, const auto& F1, const auto& s) {
+    const st2tost2<N, double> a = convert<TO::SPATIAL_MODULI, TO::DT_DELOG>(K, F0, F1, s);
+    const st2tost2<N, double> b = convert<TO::DS_DEGL, TO::DT_DELOG>(K, F0, F1, s);
+    const st2tost2<N, double> c = convert<TO::SPATIAL_MODULI, TO::DS_DEGL>(b, F0, F1, s);
+    return st2tost2<N, double>(a - c);
+  });
+  dreg("DTDELOG_TRUESDELL_minus_SPATIAL_over_J", [](const auto& K, const auto& F0, const auto& F1, const auto& s) {
+    const st2tost2<N, double> a = convert<TO::C_TRUESDELL, TO::DT_DELOG>(K, F0, F1, s);
+    const st2tost2<N, double> b = convert<TO::SPATIAL_MODULI, TO::DT_DELOG>(K, F0, F1, s);
+    const st2tost2<N, double> c = convert<TO::C_TRUESDELL, TO::SPATIAL_MODULI>(b, F0, F1, s);
+    return st2tost2<N, double>(a - c);
+  });
+  // F1 = identity: E_log = E_GL to second order only in the strain, but at F = I with zero stress both frameworks have the
+  // same tangent: DS_DEGL <- DT_DELOG (K, I, I, 0) = K
+  reg("DTDELOG_DS_DEGL_at_identity", N, "A", 'A', [](const auto& in) {
+    using T = TSC;
+    if constexpr (std::is_same_v<T, double>) {
+      const auto K = mk_A<N>(in[0]);
+      const auto Id = tensor<N, T>::Id();
+      const stensor<N, T> z(T(0));
+      st2tost2<N, T> r = convert<TO::DS_DEGL, TO::DT_DELOG>(K, Id, Id, z);
+      return fl(r);
+    } else {
+      return V<T>{};
+    }
+  }, 8, "", false);
+}
+
 template <unsigned short N>
 void reg_conv_b() {  // converters through F1^-1 (expensive rational identities)
   constexpr int t3 = 1;  // thorough tier only (all N)
@@ -206,6 +263,7 @@ int main(int argc, char** argv) {
   reg_stress<TT_N>();
 #elif TT_GROUP == 1
   reg_conv_a<TT_N>();
+  reg_dtdelog<TT_N>();
 #elif TT_GROUP == 2
   reg_conv_b<TT_N>();
 #else
